@@ -33,14 +33,16 @@ class MemoryStorage(Storage):
 
     def get_all(self, limit, offset):
         self._check_limit_and_offset(limit, offset)
-        result = [v for v in self.policies.values()]
+        with self.lock:
+            result = [v for v in self.policies.values()]
         if offset > len(result) or limit == 0:
             return []
         return result[offset:limit+offset]
 
     def find_for_inquiry(self, inquiry, checker=None):
         with self.lock:
-            return self.policies.values()
+            # a snapshot: a live view of the dict would be iterated by the caller after the lock is released
+            return list(self.policies.values())
 
     def update(self, policy):
         with self.lock:
@@ -50,6 +52,8 @@ class MemoryStorage(Storage):
         log.info('Updated Policy with UID=%s. New value is: %s', policy.uid, policy)
 
     def delete(self, uid):
-        if uid in self.policies:
+        with self.lock:
+            if uid not in self.policies:
+                return
             del self.policies[uid]
-            log.info('Policy with UID %s was deleted', uid)
+        log.info('Policy with UID %s was deleted', uid)
